@@ -103,6 +103,10 @@ func admitSweep(c *Ctx, n int, k AdmitKnobs, full, decisive string, extra func(a
 			if extra != nil && !g.ClockHit {
 				extra(a, g)
 			}
+			if i%8 == 3 && !g.ClockHit && g.Panic == "" {
+				// every eighth case once more with the evaluator unwrapped (see plainEvaluatorAgrees)
+				plainEvaluatorAgrees(c, a, g)
+			}
 			cases = append(cases, a)
 			gos = append(gos, g)
 			ops = append(ops, a.opJSON())
